@@ -3,7 +3,7 @@
    code of reshape.go, flatten.go, squeeze.go, unsqueeze.go, shape.go as repaired), S = the
    ONNX text as written in Check/CheckC07.v (reshape_spec ... shape_spec). *)
 From Coq Require Import List ZArith Bool String.
-From V Require Import DType Tensor Case OpCheck ShapeOps CheckC07 ShapeOpsProofs.
+From V Require Import DType Tensor Case OpCheck ShapeOps CheckC07 ShapeOpsProofs C07Payload.
 Import ListNotations.
 Open Scope Z_scope.
 
@@ -28,6 +28,18 @@ Proof.
          | context [match ?x with _ => _ end] => destruct x; try discriminate
          end; inversion H; subst; cbn; auto.
 Qed.
+
+(* ... and the same for the other three operators: every axis, every axes tensor, any rank *)
+Theorem C07_flatten_keeps_payload axis t v :
+  flatten_spec axis t = SMust [Some v] -> pl v = pl t /\ dt v = dt t.
+Proof. exact (flatten_keeps axis t v). Qed.
+Theorem C07_squeeze_keeps_payload t axes v :
+  squeeze_spec t axes = SMust [Some v] -> pl v = pl t /\ dt v = dt t.
+Proof. exact (squeeze_keeps t axes v). Qed.
+Theorem C07_unsqueeze_keeps_payload t axes v :
+  unsqueeze_spec t axes = SMust [Some v] -> pl v = pl t /\ dt v = dt t.
+Proof. exact (unsqueeze_keeps t axes v). Qed.
+Print Assumptions C07_unsqueeze_keeps_payload.
 
 (* the known-finding class is real: the model (and the code) panic on it *)
 Example C07_shape_rank0_refuted :
